@@ -175,16 +175,7 @@ impl Check for Metadata {
     }
 }
 
-/// Syntactically valid (or nearly valid) but ill-formed terms: every production at the wrong sort,
-/// empty forms, misplaced binders.
-pub struct IllFormed {
-    cases: Vec<String>,
-    scratch: Option<Scratch>,
-}
-impl IllFormed {
-    pub fn new() -> Self {
-        // term fragments of every production
-        let frags: Vec<&str> = vec![
+pub const FRAGS: &[&str] = &[
             "()", "x", "X", "1", "1.5", "\"s\"", "'c'", "_", "{ ret () }", "! x", "ret x", "begin ret () end", "comatch .d => ret () end",
             "data end", "data | +A : X end", "codata end", "codata | .d : X end", "codata | .d .e : X end", "codata | .d x : X end", "+A ()", "+A(x)", "match x end",
             "match x | +A() => ret () end", "comatch end", "comatch | .d => ret () end", "comatch | .d x .e => ret () end", "x/a", "x y", "x .d", "X * Y", "X -> Y", "pi X . Y",
@@ -194,8 +185,7 @@ impl IllFormed {
             "let ! f x = ret x in ret ()", "let fix f (x : X) : Y = ret x in ret ()", "def x = 1 in ret x", "def ! fix f .d x : Y = ret x in ret ()", "@[doc] x", "@(intrinsic(ret))", "(x : X)", "(a = x)",
             "(= a)", "(= a : X)", "(a :: X)", "(x, y)", "(x, y,)", "(x; y)", "(/a)", "(/a = x)", "x as y",
         ];
-        // contexts with one hole each, at every sort
-        let ctxs: Vec<&str> = vec![
+pub const CTXS: &[&str] = &[
             "HOLE", "ret HOLE", "! HOLE", "{ HOLE }", "+A HOLE", "HOLE HOLE", "HOLE .d", "HOLE/a", "(HOLE : HOLE)", "let x = HOLE in HOLE",
             "let x : HOLE = () in ret x", "let HOLE = () in ret ()", "do x <- HOLE; HOLE", "fn (x : HOLE) => ret x", "match HOLE | x => HOLE end",
             "match () | HOLE => ret () end", "comatch | HOLE => ret () end", "fix (x : HOLE) => HOLE", "data | +A : HOLE end", "codata | .d : HOLE end", "codata | .d HOLE : X end",
@@ -203,7 +193,20 @@ impl IllFormed {
             "begin HOLE end", "begin let x = HOLE that ret x end", "param (x : HOLE) in ret x", "(a = HOLE)", "(a :: HOLE)", "@[doc] HOLE", "let Ret = @(intrinsic(ret)) in let T = HOLE in ret ()",
             "let Ret = @(intrinsic(ret)) in (HOLE : Ret @(intrinsic(unit)))", "let x = 1 that HOLE",
         ];
-        let mut cases = vec![];
+
+/// Syntactically valid (or nearly valid) but ill-formed terms: every production at the wrong sort,
+/// empty forms, misplaced binders.
+pub struct IllFormed {
+    cases: Vec<String>,
+    scratch: Option<Scratch>,
+}
+impl IllFormed {
+    pub fn new() -> Self {
+        // term fragments of every production
+        let frags: Vec<&str> = FRAGS.to_vec();
+                // contexts with one hole each, at every sort
+        let ctxs: Vec<&str> = CTXS.to_vec();
+                let mut cases = vec![];
         for c in &ctxs {
             for f in &frags {
                 cases.push(c.replace("HOLE", &format!("({f})")));
